@@ -167,6 +167,12 @@ def run(tier, v):
         if "panic" in o:
             v.violation({"front_end": crate, "scenario": m["scen"], "capacity": m["cap"], "observed": "panic: " + o["panic"]})
             continue
+        if o.get("skipped"):
+            continue
+        if o.get("hung"):
+            # the capture is finished and the pool has been told to stop, yet a worker lives on -- with its flow table
+            v.violation({"front_end": crate, "scenario": m["scen"], "capacity": m["cap"], "observed": "10 s after the capture was analysed the result channel is still open: a worker of the shut-down pool has not left and keeps its tables"})
+            continue
         if m["cap"] == 0 and not o.get("ok", True) and not o.get("results"):
             continue                                     # a capacity of 0 may be refused outright
         n_fe += 1
